@@ -24,25 +24,39 @@ fn is_ascii_ws(c: char) -> bool {
 /// Judges one phrase text against the reference. This is the oracle of every
 /// sub-check; the sub-checks differ only in how phrases are produced.
 pub fn judge_phrase(phrase: &str, cls: &mut Classifier) -> Verdict {
+    judge_phrase_via(phrase, cls, false)?;
+    // the FromStr implementation (the entry point of --mnemonic / MNEMONIC) is held to the same oracle
+    judge_phrase_via(phrase, cls, true)
+}
+
+fn judge_phrase_via(phrase: &str, cls: &mut Classifier, from_str: bool) -> Verdict {
+    let entry = if from_str { "str::parse::<Mnemonic>" } else { "Mnemonic::from_phrase" };
     // inputs the property does not decide: non-ASCII white space, case variants of list words
     let has_unicode_ws = phrase.chars().any(|c| c.is_whitespace() && !is_ascii_ws(c));
     let tokens = bip39::split_ascii_ws(phrase);
     let case_variant = tokens
         .iter()
         .any(|t| bip39::lookup(t).is_none() && bip39::lookup(&t.to_lowercase()).is_some());
-    let got = crate::isolate::inflight("mnemonic", phrase.as_bytes(), "generated", || catch(|| Mnemonic::from_phrase(phrase).map(|m| (m.to_phrase(), m.to_string(), m.mnemonic_length() as usize))));
+    let got = crate::isolate::inflight("mnemonic", phrase.as_bytes(), "generated", || {
+        catch(|| {
+            let parsed = if from_str { phrase.parse::<Mnemonic>().map_err(|e| e.to_string()) } else { Mnemonic::from_phrase(phrase).map_err(|e| e.to_string()) };
+            parsed.map(|m| (m.to_phrase(), m.to_string(), m.mnemonic_length() as usize))
+        })
+    });
     let got = match got {
         Ok(g) => g,
         Err(p) => {
             return fail(
                 "accept or an error",
                 p,
-                format!("Mnemonic::from_phrase panicked on a phrase of {} tokens: {:?}", tokens.len(), crate::engine::truncate(phrase, 300)),
+                format!("{entry} panicked on a phrase of {} tokens: {:?}", tokens.len(), crate::engine::truncate(phrase, 300)),
             )
         }
     };
     if has_unicode_ws || case_variant {
-        cls.unspecified(if has_unicode_ws { "non-ascii-whitespace" } else { "case-variant-of-list-word" });
+        if !from_str {
+            cls.unspecified(if has_unicode_ws { "non-ascii-whitespace" } else { "case-variant-of-list-word" });
+        }
         return Ok(());
     }
     let want = bip39::decode_phrase(phrase);
@@ -64,8 +78,11 @@ pub fn judge_phrase(phrase: &str, cls: &mut Classifier) -> Verdict {
                 Ok(Ok(again)) if again == *printed => {}
                 other => return fail(printed.clone(), format!("{other:?}"), "re-parsing the printed phrase"),
             }
-            cls.label(&format!("accepted-{}", words.len()));
+            if !from_str {
+                cls.label(&format!("accepted-{}", words.len()));
+            }
         }
+        (Err(_), Err(_)) if from_str => {}
         (Err(why), Err(_)) => {
             cls.label(match why {
                 Invalid::WordCount(_) => "rejected-word-count",
@@ -74,13 +91,13 @@ pub fn judge_phrase(phrase: &str, cls: &mut Classifier) -> Verdict {
             });
         }
         (Ok(_), Err(e)) => {
-            return fail("accepted", format!("Err({e})"), format!("valid BIP-39 phrase refused: {:?}", crate::engine::truncate(phrase, 300)));
+            return fail("accepted", format!("Err({e})"), format!("valid BIP-39 phrase refused by {entry}: {:?}", crate::engine::truncate(phrase, 300)));
         }
         (Err(why), Ok((printed, _, _))) => {
             return fail(
                 format!("Err ({why:?})"),
                 format!("accepted, prints {printed:?}"),
-                format!("invalid phrase accepted ({} tokens): {:?}", tokens.len(), crate::engine::truncate(phrase, 300)),
+                format!("invalid phrase accepted by {entry} ({} tokens): {:?}", tokens.len(), crate::engine::truncate(phrase, 300)),
             );
         }
     }
@@ -90,7 +107,7 @@ pub fn judge_phrase(phrase: &str, cls: &mut Classifier) -> Verdict {
         t.dedup();
         t.len()
     };
-    if distinct_words >= 2 && !UNIT_TEST_PHRASES.contains(&tokens.join(" ").as_str()) {
+    if !from_str && distinct_words >= 2 && !UNIT_TEST_PHRASES.contains(&tokens.join(" ").as_str()) {
         cls.nontrivial(phrase);
     }
     Ok(())
@@ -280,7 +297,7 @@ fn not_a_word(u: &mut crate::gen::U) -> String {
     for _ in 0..20 {
         let base = bip39::word(u.below(2048) as u16).to_string();
         let mut chars: Vec<char> = base.chars().collect();
-        let cand = match u.below(11) {
+        let cand = match u.below(14) {
             0 => {
                 let i = u.below(chars.len());
                 chars.remove(i);
@@ -348,6 +365,17 @@ fn not_a_word(u: &mut crate::gen::U) -> String {
                 s.extend(chars[i + 1..].iter());
                 s
             }
+            11 | 12 => {
+                // a list word carrying quotation marks, brackets or punctuation (pasted from prose, JSON, a shell)
+                const MARKS: [&str; 22] = ["\"", "'", "`", "(", ")", "[", "]", "<", ">", "{", "}", ",", ".", ";", ":", "\u{201c}", "\u{201d}", "\u{2018}", "\u{2019}", "\u{ab}", "\u{bb}", "\\"];
+                let m = MARKS[u.below(MARKS.len())];
+                match u.below(4) {
+                    0 => format!("{m}{base}"),
+                    1 => format!("{base}{m}"),
+                    2 => format!("{m}{base}{m}"),
+                    _ => format!("{m}{m}{base}"),
+                }
+            }
             _ => format!("{}{}", (b'a' + u.below(26) as u8) as char, base),
         };
         if !cand.is_empty()
@@ -365,9 +393,34 @@ fn unknown_strategy() -> impl Strategy<Value = PhraseCase> {
     (entropy_strategy(), crate::gen::tape(64)).prop_map(|(e, tape)| {
         let mut u = crate::gen::U::new(&tape);
         let mut words: Vec<String> = bip39::encode_words(&e).into_iter().map(String::from).collect();
+        if u.ratio(1, 10) {
+            // the whole phrase inside quotation marks or brackets (balanced or not), as pasted from elsewhere
+            const OPEN: [&str; 10] = ["\"", "'", "`", "(", "[", "<", "{", "\u{201c}", "\u{2018}", "\u{ab}"];
+            const CLOSE: [&str; 10] = ["\"", "'", "`", ")", "]", ">", "}", "\u{201d}", "\u{2019}", "\u{bb}"];
+            let k = u.below(OPEN.len());
+            let last = words.len() - 1;
+            match u.below(4) {
+                0 => words[0] = format!("{}{}", OPEN[k], words[0]),
+                1 => words[last] = format!("{}{}", words[last], CLOSE[k]),
+                2 => {
+                    words[0] = format!("{}{}", OPEN[k], words[0]);
+                    words[last] = format!("{}{}", words[last], CLOSE[k]);
+                }
+                _ => {
+                    words[0] = format!("{}{}{}", OPEN[k], OPEN[u.below(OPEN.len())], words[0]);
+                    words[last] = format!("{}{}", words[last], CLOSE[k]);
+                }
+            }
+            return PhraseCase { phrase: words.join(" ") };
+        }
         let n = 1 + u.below(2);
         for _ in 0..n {
-            let i = u.below(words.len());
+            // first and last word preferred: that is where a trimming step would look
+            let i = match u.below(4) {
+                0 => 0,
+                1 => words.len() - 1,
+                _ => u.below(words.len()),
+            };
             words[i] = not_a_word(&mut u);
         }
         PhraseCase { phrase: words.join(" ") }
